@@ -68,7 +68,12 @@ func (b *RawBackend) storageByPath(ctx context.Context, path string) (StorageAcc
 	// Fast-path root or deleted namespaces; we do not need a lookup into the
 	// seal manager.
 	if ns == nil || ns.ID == namespace.RootNamespaceID {
-		if specialPath {
+		// Only the root namespace's own seal configuration lives on the
+		// direct physical layer, and it is addressed without a namespace
+		// prefix. A path that spells out a namespace UUID (the root UUID or
+		// one that no longer exists) is not that entry: callers operate on
+		// the full path, so it must stay behind the barrier.
+		if specialPath && rest == path {
 			return &directStorageAccess{physical: b.core.physical}, ns != nil, nil
 		} else {
 			return &secureStorageAccess{barrier: b.core.barrier}, ns != nil, nil
